@@ -899,7 +899,20 @@ func genMultiWith(rt *rapid.T, gen kit.GenOpts, withClose bool) *mcase {
 	cfg := kit.GenConfig(rt, gen)
 	var faultKey [2]int
 	var flt kit.Fault
-	x, err := startRunWith(cfg, nil, nil)
+	var prep func(*kit.World)
+	if withClose && rapid.Bool().Draw(rt, "closeFailures") {
+		// the Close methods of some registrations fail: what an operation that overlaps the
+		// Close of its scope reports is still the disposed error, not somebody's Close error
+		prep = func(w *kit.World) {
+			w.CloseFailRegs = map[int]bool{}
+			for _, r := range w.Cfg.Regs {
+				if r.Form != kit.FormInstance && rapid.IntRange(0, 2).Draw(rt, "closeFails") == 0 {
+					w.CloseFailRegs[r.ID] = true
+				}
+			}
+		}
+	}
+	x, err := startRunWith(cfg, nil, prep)
 	if err != nil {
 		rt.Fatal(err)
 	}
